@@ -336,3 +336,14 @@ Qed.
 Lemma two_pairs_differ_lemma :
   (t_src (Task 1 1 2 3 1 0 1 1 [] true true), t_ig (Task 1 1 2 3 1 0 1 1 [] true true)) <> (1, 4).
 Proof. cbn. intros H. inversion H. Qed.
+
+(* no move of ANOTHER task can break a task's invariant: TaskInv of [c] only
+   looks at the restriction to c's pair, which such a move leaves unchanged *)
+Lemma other_moves_keep_inv : forall cfgs d sch m c,
+  (forall c', In c' cfgs -> t_id c' = fst m -> (t_src c', t_ig c') <> (t_src c, t_ig c)) ->
+  TaskInv c (s_db (sys_run sch (sys_init cfgs d))) ->
+  TaskInv c (s_db (sys_step (sys_run sch (sys_init cfgs d)) m)).
+Proof.
+  intros cfgs d sch m c Hne (g & Hpv & Hw). exists g. split; [|exact Hw].
+  unfold pv in *. rewrite (system_frame_lemma cfgs d sch m (t_src c) (t_ig c) Hne). exact Hpv.
+Qed.
